@@ -397,6 +397,7 @@ func init() {
 			{Name: "big-shared", N: func(c *Ctx) int { return tierN(c, 4000, 200000) }, Run: c18BigShared},
 			{Name: "requery-aliasing", N: func(c *Ctx) int { return 3 * len(c07Directed()) }, Run: c18Aliasing, Exhaustive: true},
 			{Name: "heavy", N: heavyN, Run: heavyRun("C18"), Exhaustive: true},
+			{Name: "many-elements", N: func(c *Ctx) int { return 6 }, Run: manyRequery, Exhaustive: true},
 			{Name: "deep", N: c18DeepN, Run: c18Deep, Exhaustive: true},
 			{Name: "literal-results", N: func(c *Ctx) int { return tierN(c, 4000, 200000) }, Run: c18Literals},
 			{Name: "null-elements", N: func(c *Ctx) int { return tierN(c, 3000, 60000) }, Run: c18Nulls},
